@@ -1,11 +1,5 @@
 import PystogVerif.Gen.Dispatch
-import PystogVerif.Model.Dispatch
-/-!
-Driver: one request per line on stdin, one response per line on stdout.
-
-request : `<id>;<entry>;<kw spec>;<junk fill bits>;<arg>;<arg>;…`
-response: `<id> ok <v>|<v>|…`  or  `<id> err <message>`
--/
+/-! Driver for the generated code: `<id>;<entry>;<kw spec>;<junk fill bits>;<arg>;…` → `<id> ok <v>|<v>|…` / `<id> err <message>` -/
 
 def handle (line : String) : String :=
   match line.splitOn ";" with
@@ -14,21 +8,20 @@ def handle (line : String) : String :=
     let fill := (parseBits jf.trimAscii.toString).getD 0.0
     let junk : Junk Float := fun _ _ => fill
     let a := (args.map Arg.parse).toArray
-    let e := entry.trimAscii.toString
-    match (if e.startsWith "Stog." || e.startsWith "Model." || e.startsWith "Wf." || e.startsWith "Cfg." then Model.dispatch e a else Gen.dispatch e kw junk a) with
+    match Gen.dispatch entry.trimAscii.toString kw junk a with
     | .ok vs => s!"{id} ok " ++ "|".intercalate (vs.map showVec)
     | .error e => s!"{id} err {e}"
   | _ => "? err malformed-request"
 
-partial def loop (h : IO.FS.Stream) (out : IO.FS.Stream) : IO Unit := do
+partial def loop (handle : String → String) (h : IO.FS.Stream) (out : IO.FS.Stream) : IO Unit := do
   let line ← h.getLine
   if line.isEmpty then return ()
   let l := line.trimAscii.toString
   if !l.isEmpty then
     out.putStrLn (handle l)
-  loop h out
+  loop handle h out
 
 def main : IO Unit := do
   let out ← IO.getStdout
-  loop (← IO.getStdin) out
+  loop handle (← IO.getStdin) out
   out.flush
